@@ -21,6 +21,7 @@ logging.disable(logging.CRITICAL)
 from numba_scfg.core import utils  # noqa: E402
 from numba_scfg.core.datastructures.flow_info import FlowInfo  # noqa: E402
 from numba_scfg.core.datastructures.scfg import SCFG  # noqa: E402
+from numba_scfg.core.datastructures.byte_flow import ByteFlow  # noqa: E402
 import numba_scfg  # noqa: E402
 assert os.path.realpath(numba_scfg.__file__).startswith(os.path.realpath(repo)), numba_scfg.__file__
 
@@ -183,6 +184,7 @@ def main():
         cases = gen_cases + rng.sample(rest, 700)
     lines, meta = [], []
     last_classified = []
+    history_viol = []
     for name, co, insts in cases:
         # --- real
         try:
@@ -197,6 +199,26 @@ def main():
             tb = [f for f in traceback.extract_tb(e.__traceback__) if "numba_scfg" in f.filename]
             real, real_abort = None, type(e).__name__ + "@" + (tb[-1].name if tb else "?")
             got_insts = None
+        # the public entry point, with a history: build, restructure the graph that was built, build
+        # again - the second graph must again be the bytecode's control flow (nothing of the first
+        # build may be handed out again)
+        if real is not None and len(meta) % 4 == 0:
+            try:
+                bf1 = ByteFlow.from_bytecode(co)
+                d1 = [(b.name, getattr(b, "begin", None), getattr(b, "end", None), list(b._jump_targets)) for b in bf1.scfg.graph.values()]
+                try:
+                    bf1.scfg.restructure()
+                except Exception:  # noqa: BLE001
+                    pass
+                bf2 = ByteFlow.from_bytecode(co)
+                d2 = [(type(b).__name__, b.name, getattr(b, "begin", None), getattr(b, "end", None), list(b._jump_targets)) for b in bf2.scfg.graph.values()]
+                if d1 != real:
+                    history_viol.append({"function": name, "what": "ByteFlow.from_bytecode differs from FlowInfo.from_bytecode + build_basicblocks", "ops": []})
+                elif d2 != [("PythonBytecodeBlock",) + tuple(x) for x in real]:
+                    history_viol.append({"function": name, "what": "a second ByteFlow.from_bytecode of the same function, after the first graph was restructured, "
+                                         "is not the bytecode's control flow any more: " + str(d2[:3])[:200], "ops": []})
+            except Exception as e:  # noqa: BLE001
+                history_viol.append({"function": name, "what": "ByteFlow.from_bytecode raises " + type(e).__name__, "ops": []})
         offs = [i.offset for i in insts]
         tins = []
         for k, i in enumerate(insts):
@@ -271,6 +293,7 @@ def main():
             diff = [g for g in got if g not in want][:2]
             viol.append({"function": name, "what": "blocks/successors differ from the interpreter's control flow",
                          "impl_blocks": [list(map(str, g)) for g in diff], "ops": jops})
+    viol = history_viol + viol
     print(json.dumps({"version": list(sys.version_info[:3]), "functions": len(meta), "nontrivial": nontrivial,
                       "model_mismatches": mism[:5], "n_model_mismatches": len(mism),
                       "violations": viol[:200], "n_violations": len(viol),
